@@ -28,6 +28,10 @@ class AbstractDiscreteTimeOfflineInterpreter(AbstractOfflineInterpreter, Discret
         self.exist_ast()
 
         #TODO move both of spec and sub-specs visit into syntax layer.
+        # every evaluation starts from the declared variables, not from the data of an earlier call
+        for var in self.ast.free_vars:
+            self.ast.var_object_dict[var] = self.ast.create_var_from_name(var)
+
         # update the value of every input variable
         self.set_variable_to_ast_from_dataset(dataset)
 
